@@ -153,6 +153,13 @@ class Endpoint(object):
             self.net.log.append(('close', self.id))
             if self.server is not None:
                 self.server.on_close(self)
+            # like asyncio's transport.close() -> connection_lost(None): a read still pending on this connection
+            # ends with end-of-stream
+            try:
+                if not self.reader.at_eof() and not self.reader._eof:
+                    self.reader.feed_eof()
+            except Exception:
+                pass
 
     def _pump_soon(self, force=False):
         if not self._pump_scheduled and self.out and (force or self.reader._waiter is not None):
